@@ -71,23 +71,25 @@ def run_harness(ctx, name, ob_failed, timeout=900, extra_args=()):
     return json.load(open(os.path.join(ctx.work, "meta.json")))
 
 
-def eval_shards(ctx, meta, ob_failed, sources, idents=("M", "P")):
-    """sources: {kind: jsonl file}; shard names are <kind>_<idx>.v.
-    Returns (model_bad, prop_bad, extra) with lists of (kind, case_json); extra = {shard: {ident: text}}."""
+def eval_shards(ctx, meta, ob_failed, sources, idents=("M", "P"), sizes=None):
+    """sources: {kind: jsonl file}; shard names are <kind>_<idx>.v; sizes: {kind: shard size} (default meta.shard_size).
+    Returns (model_bad, prop_bad, res) with lists of (kind, case_json) -- case_json gets '_i' = its global index --
+    and res = {shard: {ident: text}}."""
     model_bad, prop_bad = [], []
     res = ctx.coq_eval_shards(GROUP, ctx.work, meta.get("shards", []), idents=idents)
     for shard, lg in res["_errors"]:
         ob_failed.append("correspondence shard %s did not evaluate: %s" % (shard, lg[-600:]))
     data = {k: load_jsonl(os.path.join(ctx.work, f)) for k, f in sources.items()}
-    size = meta.get("shard_size", 1)
     for shard in meta.get("shards", []):
         r = res.get(shard) or {}
         kind, idx = shard.rsplit("_", 1)[0], int(shard.rsplit("_", 1)[1].split(".")[0])
+        size = (sizes or {}).get(kind, meta.get("shard_size", 1))
         base = idx * size
         src = data.get(kind, [])
         for ident, acc in (("M", model_bad), ("P", prop_bad)):
             for i in (ctx.parse_nlist(r.get(ident)) or []):
-                case = src[base + i] if base + i < len(src) else {"index": base + i}
+                case = dict(src[base + i]) if base + i < len(src) else {"index": base + i}
+                case["_i"] = base + i
                 acc.append((kind, case))
     return model_bad, prop_bad, res
 
